@@ -80,6 +80,8 @@ def h_chunk(f, ns, sched, start='zero', pastify=False, oracle='both'):
     bounds = [c for c in f[1:] if isinstance(c, int)]
     a, b = (bounds + [None, None])[:2]
     cache = {}
+    from .c16 import dense_hor
+    h = dense_hor(f) if pastify else 0
 
     def body(env):
         A = env.A
@@ -97,16 +99,17 @@ def h_chunk(f, ns, sched, start='zero', pastify=False, oracle='both'):
         sl = [sigs[v] for v in vs]
         S, E = refct.domain(A, sl)
         tau = env.real('tau')
-        env.assume(A.And(A.le(cat[0][0], tau), A.le(tau, cat[-1][0]), A.le(S, tau), A.le(tau, E)))
+        env.assume(A.And(A.le(cat[0][0], tau), A.le(tau, cat[-1][0]), A.le(S + h, tau), A.le(tau, E)))
         got = refct.val(A, cat, tau)
         if oracle in ('both', 'offline'):
+            # after pastify() the online output at tau is the offline robustness of the ORIGINAL formula at tau - h
             soff = ct.make_spec('offline', 'out = ' + text(f), vs)
             off = soff.evaluate(*[[v, [list(p) for p in sigs[v]]] for v in vs])
             if not off:
                 res.append(('offline-empty', A.false))
             else:
-                res.append(('offline', A.eq(got, refct.val(A, off, tau))))
-        if oracle in ('both', 'rho') and simple:
+                res.append(('offline', A.eq(got, refct.val(A, off, tau - h))))
+        if oracle in ('both', 'rho') and simple and not pastify:
             if len(vs) == 2 and len(refsem.kids(f)) == 2:
                 want = symx.memo(env, cache, 'want', lambda: refct.ref_binary(A, op, sigs['x'], sigs['y'], tau, S, a, b))
             else:
@@ -149,6 +152,15 @@ def obligations(tier, rng):
             for sched in schedules([n]):
                 out.append(ob('C05', 'chunk', 'F2/%s/n=%d/%s' % (text(f), n, _sname(sched)), f=f, ns=[n], sched=sched,
                               oracle='offline', max_paths=20000, wall=900))
+    # pastified bounded-future specifications: output shifted by the horizon
+    fut = [('eventually_t', X, 0, 1), ('always_t', X, 1, 2), ('eventually_t', X, 1, 2), ('always_t', X, 0, 1),
+           ('and', ('once_t', X, 0, 1), ('eventually_t', X, 0, 1)), ('not', ('eventually_t', ('not', X), 0, 1)),
+           ('eventually_t', ('always_t', X, 0, 1), 0, 1), ('or', ('always_t', X, 0, 1), ('historically', X))]
+    for f in (fut[:5] if quick else fut):
+        for n in ([3] if quick else [3, 4]):
+            for sched in schedules([n]):
+                out.append(ob('C05', 'chunk', 'Fpast/%s/n=%d/%s' % (text(f), n, _sname(sched)), f=f, ns=[n], sched=sched, pastify=True,
+                              oracle='offline', max_paths=40000, wall=900))
     res_ = out
     from .. import core as _core
     res_ = res_ + _core.make_twins(res_, [('F1/once[0,1](x)/n=3/0;1;2', 'ctwindow'), ('F1/(x) and (y)/n=[2, 2]/0,1|0,1', 'ctminmax'), ('F1/historically(x)/n=3/0,1;2', 'ctminmax')]) + _core.make_forkmode(res_, [])
